@@ -45,6 +45,13 @@ AGG = [
     "not not #sum { Z : s(Z) } > 2",
     "#sum { Z : s(Z) } != X",
     "X <= #sum+ { Z : t(Z) }",
+    "N = #sum { Z : s(Z) }; K = #max { Z : t(Z) }",
+    "K = #max { Z : t(Z) }; N = #sum { Z : s(Z) }",
+    "M = #count { Z : s(Z) }; K = #min { Z : t(Z) }",
+    "N + K = X",
+    "N + K > 2",
+    "M + K = 3",
+    "X = N - K",
 ]
 MENU = CMP + AGG
 
